@@ -50,20 +50,23 @@ func vRefParse(src string, lang language.Language) []vRC {
 			k += sz
 		}
 	}
-	sl := []string{lang.SingleLineCommentStart()}
+	syn := vSyntaxTable[lang]
+	sl := []string{syn.single}
 	type ml struct{ s, e string }
-	mls := []ml{{lang.MultilineCommentStart(), lang.MultilineCommentEnd()}}
+	mls := []ml{{syn.mstart, syn.mend}}
 	if lang == language.SQL {
-		sl = append(sl, language.MySQL.SingleLineCommentStart())
-		mls = append(mls, ml{language.MySQL.MultilineCommentStart(), language.MySQL.MultilineCommentEnd()})
+		my := vSyntaxTable[language.MySQL] // SQL files also take MySQL's delimiters
+		sl = append(sl, my.single)
+		mls = append(mls, ml{my.mstart, my.mend})
 	} else if lang == language.ObjectiveC {
-		sl = append(sl, language.Matlab.SingleLineCommentStart())
-		mls = append(mls, ml{language.Matlab.MultilineCommentStart(), language.Matlab.MultilineCommentEnd()})
+		mt := vSyntaxTable[language.Matlab] // .m files: Objective-C also takes Matlab's delimiters
+		sl = append(sl, mt.single)
+		mls = append(mls, ml{mt.mstart, mt.mend})
 	}
 	for i < len(src) {
 		r, sz := utf8.DecodeRuneInString(src[i:])
 		if (r == '"' || r == '\'' || r == '`') && lang != language.HTML {
-			if ok, esc := lang.QuoteCharacter(r); ok {
+			if ok, esc := vQuote(lang, r); ok {
 				quote := string(r)
 				doc := false
 				if lang == language.Python && (strings.HasPrefix(src[i:], "'''") || strings.HasPrefix(src[i:], `"""`)) {
@@ -117,7 +120,7 @@ func vRefParse(src string, lang language.Language) []vRC {
 				var content strings.Builder
 				closed := false
 				for i < len(src) {
-					if lang.NestedComments() && strings.HasPrefix(src[i:], m.s) {
+					if syn.nested && strings.HasPrefix(src[i:], m.s) {
 						content.WriteString(m.s)
 						adv(len(m.s))
 						nest++
@@ -165,6 +168,82 @@ func vRefParse(src string, lang language.Language) []vRC {
 		adv(sz)
 	}
 	return out
+}
+
+// vSyntax is the harness' own statement of each language's comment and string
+// syntax (from the languages' documentation and the comment-style list in
+// language.go), so that a slip in the package's tables is not silently shared
+// by the oracle. Languages for which the package documents no comment style
+// (Unknown, EDIF, LEF, SDC, XDC) have none here either.
+type vSyntax struct {
+	single, mstart, mend string
+	nested               bool
+	rawBackquote         bool // `...` is a string without escapes (Go)
+}
+
+var (
+	vBCPL = vSyntax{single: "//", mstart: "/*", mend: "*/"}
+	vHash = vSyntax{single: "#"}
+)
+
+var vSyntaxTable = map[language.Language]vSyntax{
+	language.Unknown: {}, language.EDIF: {}, language.LEF: {}, language.SDC: {}, language.XDC: {},
+	language.AppleScript: {single: "--", mstart: "(*", mend: "*)"},
+	language.Assembly:    vBCPL, language.C: vBCPL, language.CSharp: vBCPL, language.Dart: vBCPL, language.Flex: vBCPL,
+	language.GLSLF: vBCPL, language.Java: vBCPL, language.JavaScript: vBCPL, language.Kotlin: vBCPL, language.ObjectiveC: vBCPL,
+	language.Shader: vBCPL, language.SWIG: vBCPL, language.TypeScript: vBCPL, language.Yacc: vBCPL, language.Verilog: vBCPL,
+	language.SystemVerilog: vBCPL, language.SDF: vBCPL, language.SPEF: vBCPL,
+	language.Go:    {single: "//", mstart: "/*", mend: "*/", rawBackquote: true},
+	language.Swift: {single: "//", mstart: "/*", mend: "*/", nested: true},
+	language.Rust:  {single: "//"}, // the package deliberately gives Rust no multi-line style
+	language.Batch: {single: "@REM"},
+	language.BLIF:  vHash, language.TCL: vHash,
+	language.CMake:   {single: "#", mstart: "#[[", mend: "]]"},
+	language.Fortran: {single: "!"},
+	language.Haskell: {single: "--", mstart: "{-", mend: "-}"},
+	language.HTML:    {mstart: "<!--", mend: "-->"}, language.Markdown: {mstart: "<!--", mend: "-->"},
+	language.Clojure: {single: ";"}, language.Lisp: {single: ";"},
+	language.Ruby: {single: "#", mstart: "=begin", mend: "=end"},
+	language.Clif: vHash, language.Elixir: vHash, language.NinjaBuild: vHash, language.Perl: vHash, language.Python: vHash,
+	language.R: vHash, language.Shell: vHash, language.Yaml: vHash,
+	language.Matlab: {single: "%", mstart: "%{", mend: "%}"},
+	language.MySQL:  {single: "#", mstart: "/*", mend: "*/"},
+	language.SQL:    {single: "--"},
+}
+
+// vCheckTables compares the package's public tables with vSyntaxTable.
+func vCheckTables() string {
+	for _, l := range vAllLanguages {
+		want, ok := vSyntaxTable[l]
+		if !ok {
+			return fmt.Sprintf("language %d is not in the harness' syntax table (new language?)", int(l))
+		}
+		if l.SingleLineCommentStart() != want.single || l.MultilineCommentStart() != want.mstart || l.MultilineCommentEnd() != want.mend || l.NestedComments() != want.nested {
+			return fmt.Sprintf("language %d: tables say single=%q multi=%q..%q nested=%v, expected single=%q multi=%q..%q nested=%v", int(l),
+				l.SingleLineCommentStart(), l.MultilineCommentStart(), l.MultilineCommentEnd(), l.NestedComments(), want.single, want.mstart, want.mend, want.nested)
+		}
+		for _, q := range []rune{'"', '\'', '`', 'a', '/'} {
+			ok, esc := l.QuoteCharacter(q)
+			wok := q == '"' || q == '\'' || (q == '`' && want.rawBackquote)
+			wesc := q == '"' || q == '\''
+			if ok != wok || (ok && esc != wesc) {
+				return fmt.Sprintf("language %d: QuoteCharacter(%q) = (%v, %v), expected (%v, %v)", int(l), q, ok, esc, wok, wesc)
+			}
+		}
+	}
+	return ""
+}
+
+func vQuote(lang language.Language, r rune) (bool, bool) {
+	switch r {
+	case '"', '\'':
+		return true, true
+	case '`':
+		if vSyntaxTable[lang].rawBackquote {
+			return true, false
+		}
+	}
+	return false, false
 }
 
 // vFFFD maps every invalid byte to U+FFFD (the implementation builds comment
@@ -341,6 +420,14 @@ func TestVerifC18(t *testing.T) {
 	e := vStart(t, "C18")
 	defer e.finish()
 	idx := 0
+	e.run(idx, "language-tables", map[string]interface{}{"languages": len(vAllLanguages)}, func(cs *vCase) {
+		if why := vCheckTables(); why != "" {
+			cs.violation("language-table", "%s", why)
+			return
+		}
+		cs.nontrivial("tables")
+	})
+	idx++
 	// (1) exhaustive short programs per language
 	for _, lang := range vAllLanguages {
 		lang := lang
